@@ -11,24 +11,36 @@ validated against scipy's own evaluation trace on every generated system). -/
 open Spec.OpPoint
 
 section
-variable (gap : ℝ → ℝ)
+variable (heads : ℝ → ℝ × ℝ)
 
 /-- pump head below system head at the minimum-friction flow ⇒ OperatingPointError -/
 theorem C10_infeasible (s p qimin qlast : ℝ) (h : s > p) :
-    (match findOp gap s p qimin qlast with | .operatingPointError => True | .flow _ => False) := by
-  unfold findOp; rw [if_pos h]; trivial
+    (match findOp heads s p qimin qlast with | .operatingPointError => True | .flow _ => False) := by
+  unfold findOp; simp only; rw [if_pos h]; trivial
 
-/-- in every case the result is OperatingPointError, or the root of a CONVERGED secant run started at qimin and the midpoint -/
+/-- in every case the result is OperatingPointError, or a flow r that is the root of a CONVERGED secant run on the head gap started at qimin and
+the midpoint AND at which system and pump head agree within 1e-6 relative -/
 theorem C10_shape (s p qimin qlast : ℝ) :
-    (match findOp gap s p qimin qlast with
+    (match findOp heads s p qimin qlast with
      | .operatingPointError => True
-     | .flow r => secant gap 1.48e-8 50 qimin ((qimin + qlast) / 2.0) = Outcome.converged r ∧ ¬ s > p) := by
+     | .flow r => secant (fun q => (heads q).1 - (heads q).2) 1.48e-8 50 qimin ((qimin + qlast) / 2.0) = Outcome.converged r ∧ ¬ s > p ∧
+        |(heads r).1 - (heads r).2| ≤ 1e-6 * max (max |(heads r).1| |(heads r).2|) 1) := by
   unfold findOp
+  simp only
   split_ifs with h
   · trivial
-  · cases hs : secant gap (1.48e-8) 50 qimin ((qimin + qlast) / 2.0) with
-    | converged r => exact ⟨rfl, h⟩
+  · cases hs : secant (fun q => (heads q).1 - (heads q).2) (1.48e-8) 50 qimin ((qimin + qlast) / 2.0) with
+    | converged r =>
+      simp only [Transc.abs, pyMax_eq_max, sci_one]
+      split_ifs with hr
+      · exact ⟨rfl, h, hr⟩
+      · trivial
     | notConverged l => trivial
+
+end
+
+section
+variable (gap : ℝ → ℝ)
 
 /-- both forms of the update are the secant formula p₁ − q₁ (p₁ − p₀)/(q₁ − q₀) -/
 theorem secantStep_eq (p0 q0 p1 q1 : ℝ) (hq : q1 ≠ q0) (h0 : q0 ≠ 0 ∨ |q1| > |q0|) (h1 : q1 ≠ 0 ∨ ¬ |q1| > |q0|) :
